@@ -774,6 +774,7 @@ impl<'a, 'src: 'a> Compiler<'a, 'src> {
         .iter()
         .position(|existing_capture| match (&existing_capture, &capture) {
           (CaptureIndex::Local(existing), CaptureIndex::Local(new)) => *existing == *new,
+          (CaptureIndex::Enclosing(existing), CaptureIndex::Enclosing(new)) => *existing == *new,
           _ => false,
         })
     {
